@@ -38,3 +38,18 @@ Print Assumptions C04_disjoint_sound.
 Print Assumptions C04_disjoint_sound_env.
 Print Assumptions C04_disjoint_sym.
 Print Assumptions C04_disjoint_and.
+
+(** ** the recursion on ids ([disjoint_i], Interner/DisjModel.v = InternerGuard::is_disjoint with complemented
+    edges): for every store satisfying the invariant it computes [m_disjoint] of the unfolded diagrams, hence is
+    symmetric, is not affected by anything interned later, and agrees with [and] returning FALSE *)
+From PV Require Import Interner.Store Interner.StoreProofs Interner.AndModel Interner.AndProofs Interner.DisjModel Interner.DisjProofs.
+Theorem C04_disjoint_on_ids : forall (fuel : nat) (a : list (snode (var:=var) (val:=val))) (x y : nid),
+  Inv a -> valid (length a) x -> valid (length a) y -> (rank x + rank y < fuel)%nat ->
+  disjoint_i fuel a x y = m_disjoint (unfold a x) (unfold a y).
+Proof. exact disjoint_i_m_disjoint. Qed.
+Theorem C04_disjoint_iff_and_false : forall (fuel fuel' : nat) (s : ist (var:=var) (val:=val)) (x y : nid),
+  SOK0 s -> valid (length (fst s)) x -> valid (length (fst s)) y -> (rank x + rank y < fuel)%nat -> enough_fuel x y fuel' ->
+  (disjoint_i fuel (fst s) x y = true <-> snd (and_i fuel' s x y) = NFalse).
+Proof. exact (disjoint_i_and (var:=var) (val:=val)). Qed.
+Print Assumptions C04_disjoint_on_ids.
+Print Assumptions C04_disjoint_iff_and_false.
